@@ -157,17 +157,32 @@ func retypingRule(c *Ctx, ruleIdent, ruleNonEmpty string) {
 				et = pt.Elem()
 				isPtr = true
 			}
-			var v Val
-			switch {
-			case et.String() == "bool":
-				v = &BoolV{Known: true, Val: isStatusSet}
-			default:
-				if _, isSig := et.Underlying().(*types.Signature); isSig {
-					v = &FuncV{Ext: "recv"}
-				} else {
-					v = ex.topArg(st, et, fv.Name())
+			// captured state by type: the receiver callback, the "status seen" flag, everything else unknown; a captured
+			// struct (the callback may be a method value of a small dispatcher object) is filled in the same way
+			var mkBind func(t types.Type, name string, depth int) Val
+			mkBind = func(t types.Type, name string, depth int) Val {
+				if t.String() == "bool" {
+					return &BoolV{Known: true, Val: isStatusSet}
 				}
+				if _, isSig := t.Underlying().(*types.Signature); isSig {
+					return &FuncV{Ext: "recv"}
+				}
+				if stt, ok := t.Underlying().(*types.Struct); ok && depth < 2 && InModuleType(t) {
+					sv := ex.zeroOf(t).(*StructV)
+					for i := 0; i < stt.NumFields(); i++ {
+						sv.Fields[i] = mkBind(stt.Field(i).Type(), name+"."+stt.Field(i).Name(), depth+1)
+					}
+					return sv
+				}
+				if pt, ok := t.(*types.Pointer); ok && depth < 2 {
+					if _, ok := pt.Elem().Underlying().(*types.Struct); ok && InModuleType(pt.Elem()) {
+						id := ex.newObj(st, mkBind(pt.Elem(), name, depth+1), pt.Elem())
+						return &PtrV{Obj: id}
+					}
+				}
+				return ex.topArg(st, t, name)
 			}
+			v := mkBind(et, fv.Name(), 0)
 			if isPtr {
 				id := ex.newObj(st, v, et)
 				binds = append(binds, &PtrV{Obj: id})
@@ -505,45 +520,100 @@ func initialAndChunking(c *Ctx, rule string) {
 func loopbackRule(c *Ctx, rule string) {
 	p := c.P
 	tout := p.roleT("drivers/testdrv.out")
-	if tout == nil {
+	rT := p.namedType("drivers", "Reader")
+	if tout == nil || rT == nil {
 		c.Unk(rule, "testdrv out port", "-", "not found")
 		return
 	}
 	send := p.MethodOf(types.NewPointer(tout), "Send")
+	if send == nil {
+		c.Unk(rule, "testdrv out.Send", "-", "not found")
+		return
+	}
 	c.Fn(FuncName(send))
-	ok := false
-	why := "Send does not hand its argument to the decoder"
-	for _, call := range calls(send) {
-		f := call.Common().StaticCallee()
-		if f == nil || f.Name() != "EachMessage" {
-			continue
+	// abstract run of Send: the port open, a listener active (decoder present, not stopped); the elapsed virtual time is
+	// the value of (time.Time).Sub, the decoder's EachMessage is observed
+	ex := NewExec(p)
+	elapsed := mkSym(ex.syms.Get("elapsed", 64, true))
+	type feed struct {
+		st   *State
+		args []Val
+	}
+	ex.CallHook = func(ex *Exec, st *State, fr *Frame, call ssa.CallInstruction, callee *ssa.Function, args []Val) ([]callRes, bool) {
+		switch callee.String() {
+		case "(time.Time).Sub":
+			return []callRes{{st: st, ret: elapsed}}, true
 		}
-		args := call.Common().Args
-		if len(args) == 3 && args[1] == ssa.Value(send.Params[1]) {
-			// time: int32(dur.Milliseconds()) with dur = now.Sub(last)
-			ok = true
-			why = ""
-			cv, isC := args[2].(*ssa.Convert)
-			if !isC {
-				ok = false
-				why = "the time delta is not the converted elapsed milliseconds"
-				break
-			}
-			// elapsed.Milliseconds(), or the same value written as elapsed / time.Millisecond
-			isMs := false
-			switch m := cv.X.(type) {
-			case *ssa.Call:
-				isMs = m.Common().StaticCallee() != nil && m.Common().StaticCallee().String() == "(time.Duration).Milliseconds"
-			case *ssa.BinOp:
-				if k, okk := constInt(m.Y); okk && m.Op == token.QUO && k == 1000000 && m.X.Type().String() == "time.Duration" {
-					isMs = true
+		if callee.Name() == "EachMessage" && callee.Signature.Recv() != nil && namedOf(callee.Signature.Recv().Type()) == namedOf(rT) {
+			st.Events = append(st.Events, Event{Kind: "feed", Args: args})
+			return []callRes{{st: st, ret: nil}}, true
+		}
+		return nil, false
+	}
+	st := ex.NewState()
+	op := ex.newZeroObject(st, tout)
+	// fill the port: its open flag true; the driver it points to gets a decoder and is not stopped
+	var fill func(obj int, depth int)
+	fill = func(obj int, depth int) {
+		sv, ok := st.heap[obj].(*StructV)
+		if !ok || depth > 2 {
+			return
+		}
+		for i := 0; i < sv.T.NumFields(); i++ {
+			ft := sv.T.Field(i).Type()
+			switch {
+			case ft.String() == "bool" && depth == 0:
+				sv.Fields[i] = &BoolV{Known: true, Val: true} // the port's open flag
+			case tPtr(tNamed("drivers", "Reader"))(p, ft):
+				sv.Fields[i] = ex.newZeroObject(st, rT)
+			default:
+				if pt, ok := ft.(*types.Pointer); ok && InModuleType(pt.Elem()) && !types.Identical(pt.Elem(), tout) {
+					if _, isS := pt.Elem().Underlying().(*types.Struct); isS {
+						if cur, _ := sv.Fields[i].(*PtrV); cur == nil || cur.Nil {
+							np := ex.newZeroObject(st, pt.Elem())
+							sv.Fields[i] = np
+							fill(np.Obj, depth+1)
+						}
+					}
 				}
-			}
-			if !isMs {
-				ok = false
-				why = "the time delta is not the elapsed duration in whole milliseconds (Duration.Milliseconds() / division by time.Millisecond)"
 			}
 		}
 	}
-	c.Check(ok, rule, "loopback Send forwards bytes and elapsed time", p.Pos(send.Pos()), "EachMessage(bt, int32(elapsed.Milliseconds())) with the caller's slice", why)
+	fill(op.Obj, 0)
+	bt := ex.unknownSlice(st, types.Typ[types.Uint8], "bytes", 1)
+	ok, why, nfeed := true, "", 0
+	for _, o := range ex.Call(st, send, []Val{op, bt}, nil) {
+		if o.Panic || len(problemEvents(o.St.Events)) > 0 {
+			ok, why = false, "Send may panic with an open port and an active listener: "+o.Msg+fmtEvents(problemEvents(o.St.Events))
+			continue
+		}
+		k := 0
+		for _, e := range o.St.Events {
+			if e.Kind != "feed" {
+				continue
+			}
+			k++
+			nfeed++
+			if len(e.Args) != 3 {
+				ok, why = false, "unexpected decoder call"
+				continue
+			}
+			got, _ := e.Args[1].(*SliceV)
+			if got == nil || got.Obj != bt.Obj || !o.St.sameInt(got.Off, bt.Off) || !o.St.sameInt(got.Len, bt.Len) {
+				ok, why = false, "the decoder is not fed the caller's bytes (all of them, unchanged)"
+			}
+			ms, _ := e.Args[2].(*IntV)
+			want := o.St.Convert(o.St.Arith(token.QUO, elapsed, mkConst(1000000, 64, true), ""), 32, true)
+			if ms == nil || !o.St.sameInt(ms, want) {
+				ok, why = false, fmt.Sprintf("the time handed to the decoder is %s, expected the elapsed virtual time in whole milliseconds %s", valString(e.Args[2]), want)
+			}
+		}
+		if k != 1 {
+			ok, why = false, fmt.Sprintf("with the port open and a listener active Send feeds the decoder %d times", k)
+		}
+	}
+	for u := range ex.Unsupported {
+		ok, why = false, "unmodelled construct: "+u
+	}
+	c.Check(ok && nfeed > 0, rule, "loopback Send forwards bytes and elapsed time", p.Pos(send.Pos()), "abstract run of Send (port open, listener active): EachMessage(caller's bytes, int32(elapsed/1ms)) exactly once", why)
 }
